@@ -2,8 +2,10 @@
    imported macros, conditions, a failing filter, sources that fail to parse half-way, loader templates, two
    engines), each operation with the result the extracted pool machine (Model.pool_step, configured by the
    release sites of the working tree: Model.pool_cfg_gen) predicts under an adversarial reuse oracle and
-   arbitrary left-over values in pooled contexts. The generator checks on every render that this prediction
-   equals Model.pool_pristine_obs (theorem C01_equals_pristine) and stops if it does not.
+   arbitrary left-over values in pooled contexts. On every render the generator compares this prediction with
+   Model.pool_pristine_obs: equal by theorem C01_equals_pristine as long as the working tree releases no cached
+   node; when the machine configured by the tree predicts a history-dependent result itself, the case is marked
+   (model_predicts_history_dependence) and still emitted, so that the runner finds the failing input on the engine.
    One case = one history. Unverified glue; every random choice comes from the one rng. *)
 open Util
 module M = Model
@@ -207,7 +209,7 @@ let gen_history (r : rng) ~(maxlen : int) =
   reg 0 0;
   if engines = 2 then (reg 1 0; if rbool r then reg 1 3);
   if rint r 5 = 0 then push (Toggle 0);
-  let len = max (rrange r 3 maxlen) (List.length !ops + 2) in
+  let len = max (rrange r 3 (maxlen - 1)) (List.length !ops + 2) in
   let focus = ref 0 in
   while List.length !ops < len do
     match wpick r [ 42, `Render; 9, `Rereg; 7, `Parse; 6, `Load; 5, `Toggle; 6, `Gc; 4, `Poison; (if engines = 2 then 10 else 0), `Other; 4, `BadReg ] with
